@@ -43,4 +43,9 @@ BUILT = {
   level='exploration',
   text='Definition sets over a 7-name pool (frequent self/mutual recursion), object- and function-like macros, #, ## (also in object-like bodies, invocations as right operands), all variadic forms, redefinition/#undef histories and invocations with nested calls, empty arguments, parenthesised commas and line breaks; the emitted token sequence must equal both references and preprocessing must terminate.',
   note='trusts gcc/clang preprocessors where they agree; strings from # compared modulo white space only when the operand can hold expanded material; D25, D27 excluded by construction and D56 by its diagnostic (all recorded, counted)'),
+ 'C10': dict(
+  technique='property-based model-based + differential testing: Hypothesis-generated conditional trees (controlling expressions from the integer model in intmax_t/uintmax_t mode) and include graphs over generated directory trees with permuted search options; marker sequence vs model and gcc+clang consensus',
+  level='exploration',
+  text='Conditional trees with model-predicted outcomes (exact #if arithmetic, defined, undefined identifiers, unevaluated operands, skipped groups full of junk, trailing tokens) and include graphs (same-named headers across includer dir/-I/-idirafter, 10 guard shapes, #pragma once, macro-expanded and #include_next forms, -include/-D/-U histories) must yield the marker sequence both references produce.',
+  note='trusts gcc/clang textual inclusion semantics; #include_next restricted to the shape D31 (recorded) does not affect'),
 }
